@@ -288,48 +288,67 @@ def write_replay(spec, work, prop_id, failed, trace, out_root):
 _RENAME_RE = r'^(?P<pre>[A-Za-z_][\w \t\*]*?[ \*])%s(?P<post>\s*\([^;{]*\)\s*\{)'
 
 
+NATIVE_SKIP = {'main.c', 'char_lookup.c', 'argtable3.c'}
+
+
 def native_replay(spec, work, d):
-    """build the harness natively against the real units with sanitizers and run it on the counterexample"""
+    """re-execute the counterexample natively: the harness + the WHOLE real library of the current tree (gcc, ASan+UBSan).
+    Stub units that stand for real units (ds_model, nondet scanners ...) are dropped in favour of the real code unless the spec
+    lists the real unit under native_exclude."""
     rw = os.path.join(work, 'replay_build')
     shutil.rmtree(rw, ignore_errors=True)
     os.makedirs(rw)
-    srcs = []
     try:
+        san = ['-fsanitize=address,undefined', '-fno-sanitize-recover=undefined', '-g', '-O0', '-w', '-DREPLAY=1', '-I', d]
+        exclude = set(spec.get('native_exclude', [])) | NATIVE_SKIP
+        special = {}
+        stubs = []
         for u in spec.get('units', []):
             name, udefs, rm = u, [], []
             if isinstance(u, dict):
                 name, udefs, rm = u['src'], u.get('cflags', []), u.get('remove', [])
-            src = path_of(work, name)
-            if isinstance(u, dict) and u.get('replay_src'):
-                src = path_of(work, u['replay_src'])
+            if name.startswith('repo:'):
+                special[name[5:]] = (udefs, rm)
+            elif name.startswith('work:') or not name.startswith('common/ds_model'):
+                if not (isinstance(u, dict) and u.get('native') is False):
+                    stubs.append((path_of(work, name), udefs))
+        if spec.get('native_whole_lib', True):
+            names = sorted(f for f in os.listdir(SRC) if f.endswith('.c') and f not in exclude)
+        else:
+            names = sorted(special)
+        objs = []
+        jobs = []
+        for f in names:
+            src = os.path.join(SRC, f)
+            udefs, rm = special.get(f, ([], []))
+            udefs = [x for x in udefs if x != 'vh_libc.h' and x != '-include']
             if rm:
                 txt = open(src, errors='replace').read()
                 for fn in rm:
                     txt, n = re.subn(_RENAME_RE % re.escape(fn), r'\g<pre>%s__removed\g<post>' % fn, txt, count=1, flags=re.M)
                     if n != 1:
-                        return None, 'cannot rename %s in %s for native replay' % (fn, name)
-                src2 = os.path.join(rw, 'rm_' + os.path.basename(src))
-                open(src2, 'w').write(txt)
-                src = src2
-            srcs.append((src, udefs))
-        objs = []
-        san = ['-fsanitize=address,undefined', '-fno-sanitize-recover=undefined', '-g', '-O0', '-w', '-DREPLAY=1', '-I', d]
-        for i, (s, udefs) in enumerate(srcs):
-            o = os.path.join(rw, 'u%d.o' % i)
-            r = run(['gcc', '-c', s, '-o', o] + san + cflags(work, spec, udefs), timeout=300)
-            if r['rc'] != 0:
-                return None, 'native build of %s failed: %s' % (s, r['err'][-1500:])
+                        return None, 'cannot rename %s in %s for native replay' % (fn, f)
+                src = os.path.join(rw, 'rm_' + f)
+                open(src, 'w').write(txt)
+            o = os.path.join(rw, f + '.o')
+            jobs.append((['gcc', '-c', src, '-o', o] + san + cflags(work, spec, udefs), f))
             objs.append(o)
-        ho = os.path.join(rw, 'h.o')
+        for i, (sp, udefs) in enumerate(stubs):
+            o = os.path.join(rw, 'stub%d.o' % i)
+            jobs.append((['gcc', '-c', sp, '-o', o] + san + cflags(work, spec, udefs), sp))
+            objs.append(o)
         hsrc = path_of(work, spec['src'])
-        rmh = spec.get('remove', [])
-        if rmh:
+        if spec.get('remove'):
             return None, 'harness-level body removal has no native equivalent'
-        r = run(['gcc', '-c', hsrc, '-o', ho] + san + cflags(work, spec), timeout=300)
-        if r['rc'] != 0:
-            return None, 'native build of harness failed: %s' % r['err'][-1500:]
+        ho = os.path.join(rw, 'h.o')
+        jobs.append((['gcc', '-c', hsrc, '-o', ho] + san + cflags(work, spec), 'harness'))
+        with ThreadPoolExecutor(max_workers=8) as ex:
+            rs = list(ex.map(lambda j: (run(j[0], timeout=600), j[1]), jobs))
+        for r, nm in rs:
+            if r['rc'] != 0:
+                return None, 'native build of %s failed: %s' % (nm, r['err'][-1200:])
         exe = os.path.join(d, 'replay.exe')
-        r = run(['gcc', '-o', exe, ho] + objs + ['-fsanitize=address,undefined', '-lm'], timeout=300)
+        r = run(['gcc', '-o', exe, ho] + objs + ['-fsanitize=address,undefined', '-lm', '-Wl,--allow-multiple-definition'], timeout=300)
         if r['rc'] != 0:
             return None, 'native link failed: %s' % r['err'][-1500:]
         env = dict(os.environ, ASAN_OPTIONS='detect_leaks=0:abort_on_error=0', UBSAN_OPTIONS='print_stacktrace=1')
@@ -337,7 +356,7 @@ def native_replay(spec, work, d):
         text = 'exit=%s\n%s\n%s' % (r['rc'], r['out'][-2000:], r['err'][-3000:])
         if r['timed_out']:
             return True, 'native replay did not terminate in 60 s (hang)\n' + text
-        if 'REPLAY: assumption not met' in r['out']:
+        if 'REPLAY: assumption not met' in r['out'] or 'REPLAY: model cap' in r['out']:
             return False, text
         if r['rc'] != 0:
             return True, text
@@ -378,11 +397,19 @@ def run_harness(spec, work_root, prop_id, replay_root):
         if data is None:
             res['verdict'] = 'not_reached'; res['detail'] = 'no parsable cbmc output (rc=%s) %s' % (r['rc'], r['err'][-500:])
             return res
-        results = None; msgs = []
+        results = None; msgs = []; nobody = set()
         for x in data:
             if isinstance(x, dict):
                 if 'result' in x: results = x['result']
                 if x.get('messageType') == 'ERROR': msgs.append(x.get('messageText', ''))
+                mt = x.get('messageText', '')
+                if 'no body for function' in mt:
+                    nobody.add(mt.split('no body for function')[-1].strip().split()[0])
+        nobody -= set(spec.get('nobody_ok', [])) | {'nondet_in'}
+        nobody = {f for f in nobody if not f.startswith('nondet_') and not f.startswith('__CPROVER')}
+        if nobody:
+            res['verdict'] = 'error'; res['detail'] = 'functions without a body reached (would be silently nondeterministic): %s' % sorted(nobody)
+            return res
         if results is None:
             oom = 'out of memory' in r['err'].lower() or 'bad_alloc' in r['err'] or r['rc'] in (-6, 134, -9, 137)
             res['verdict'] = 'not_reached' if oom else 'error'
